@@ -13,6 +13,8 @@ snapshot() { # $1 = dest
   rsync -a --delete --exclude .git "$REPO/" "$1/"
   mkdir -p "$1/verifrt"
   cp "$VERIF"/verifrt/*.go "$1/verifrt/"
+  # static analysis only: which integer fields are pure usage counters (verifrt/zz_fields.go)
+  "$VERIF/bin/instr" -analyze -dir "$1"
 }
 mkmod() { # $1 = name, $2 = repo copy
   sed "s#=> /repo#=> $2#" "$VERIF/sim/go.mod" > "$S/$1.mod"
